@@ -154,3 +154,7 @@ package tm
 //@   let name0 := ite(in_gtx, cv0.(*ContextVariable).TxName, "")
 //@   ensures C07/frame: in_gtx ==> cv0.(*ContextVariable).Xid == xid0 && cv0.(*ContextVariable).TxRole == role0 && cv0.(*ContextVariable).TxName == name0
 //@   ensures_on_panic C07/frame-on-panic: in_gtx ==> cv0.(*ContextVariable).Xid == xid0 && cv0.(*ContextVariable).TxRole == role0 && cv0.(*ContextVariable).TxName == name0
+//@   let in_scope := isT(cv0, *ContextVariable) && cv0.(*ContextVariable) != nil && cv0.(*ContextVariable).Xid == ""
+//@   let role1 := ite(in_scope, cv0.(*ContextVariable).TxRole, 0)
+//@   let name1 := ite(in_scope, cv0.(*ContextVariable).TxName, "")
+//@   ensures C07/frame-of-a-scope-without-transaction: in_scope ==> cv0.(*ContextVariable).Xid == "" && cv0.(*ContextVariable).TxRole == role1 && cv0.(*ContextVariable).TxName == name1
